@@ -16,7 +16,7 @@ use slotted_egraphs::*;
 #[derive(Clone, Debug, PartialEq, Eq, Hash, PartialOrd, Ord)]
 enum Term { Node(String, Vec<Arg>) }
 #[derive(Clone, Debug, PartialEq, Eq, Hash, PartialOrd, Ord)]
-enum Arg { Name(usize), Child(Box<Term>) }
+enum Arg { Name(usize), Child(Box<Term>), Num(u32) }
 
 fn parse_term(toks: &[String], pos: &mut usize) -> Term {
     assert_eq!(toks[*pos], "("); *pos += 1;
@@ -24,6 +24,7 @@ fn parse_term(toks: &[String], pos: &mut usize) -> Term {
     let mut args = Vec::new();
     while toks[*pos] != ")" {
         if toks[*pos] == "(" { args.push(Arg::Child(Box::new(parse_term(toks, pos)))); }
+        else if let Some(x) = toks[*pos].strip_prefix('#') { args.push(Arg::Num(x.parse().unwrap())); *pos += 1; }
         else { args.push(Arg::Name(toks[*pos].parse().unwrap())); *pos += 1; }
     }
     *pos += 1;
@@ -61,6 +62,12 @@ struct Run<L: Language, N: Analysis<L>> {
     dump: bool,
 }
 
+/// Debug text of an analysis datum -> JSON (integers as they are, Option<u32> as the number or "none")
+fn data_json(d: String) -> String {
+    if d == "None" { return "\"none\"".to_string(); }
+    if let Some(r) = d.strip_prefix("Some(") { return r.trim_end_matches(')').to_string(); }
+    d
+}
 fn jstr(s: &str) -> String {
     let mut o = String::from("\"");
     for c in s.chars() {
@@ -79,6 +86,11 @@ impl LangExt for Lm {
     }
     fn cond_rule<N: Analysis<Self> + 'static>(name: &str, l: &str, r: &str, cond: &str, x: Slot) -> Rewrite<Self, N> {
         match cond { "cond_b_independent_of" => Rewrite::new_if(name, l, r, cond_b_independent_of::<N>(x)), _ => panic!("natdiff: unknown condition {}", cond) }
+    }
+}
+impl LangExt for La {
+    fn extract_with<N: Analysis<Self> + 'static>(r: &Run<Self, N>, cf: &str, h: &AppliedId) -> String where N::Data: std::fmt::Debug {
+        match cf { "AstSize" => r.extract_generic::<AstSize>(cf, h), _ => panic!("natdiff: cost function") }
     }
 }
 impl LangExt for Lf {
@@ -101,11 +113,12 @@ impl<L: LangExt, N: Analysis<L> + 'static> Run<L, N> where N::Data: std::fmt::De
     }
     fn node(&self, t: &Term) -> L {
         let Term::Node(op, args) = t;
-        let mut elems = vec![SyntaxElem::String(op.clone())];
+        let mut elems = if op == "num" { vec![] } else { vec![SyntaxElem::String(op.clone())] };
         for a in args {
             match a {
                 Arg::Name(i) => elems.push(SyntaxElem::Slot(slot_of_value(self.names[*i]))),
                 Arg::Child(c) => elems.push(SyntaxElem::AppliedId(self.handle(c).expect("child handle"))),
+                Arg::Num(x) => elems.push(SyntaxElem::String(x.to_string())),
             }
         }
         L::from_syntax(&elems).expect("from_syntax")
@@ -151,11 +164,12 @@ impl<L: LangExt, N: Analysis<L> + 'static> Run<L, N> where N::Data: std::fmt::De
     fn lookup_full(&self, t: &Term) -> Option<AppliedId> {
         if let Some(h) = self.handle(t) { return Some(h); }
         let Term::Node(op, args) = t;
-        let mut elems = vec![SyntaxElem::String(op.clone())];
+        let mut elems = if op == "num" { vec![] } else { vec![SyntaxElem::String(op.clone())] };
         for a in args {
             match a {
                 Arg::Name(i) => elems.push(SyntaxElem::Slot(slot_of_value(self.names[*i]))),
                 Arg::Child(c) => elems.push(SyntaxElem::AppliedId(self.lookup_full(c)?)),
+                Arg::Num(x) => elems.push(SyntaxElem::String(x.to_string())),
             }
         }
         let n = L::from_syntax(&elems).expect("from_syntax");
@@ -250,10 +264,10 @@ impl<L: LangExt, N: Analysis<L> + 'static> Run<L, N> where N::Data: std::fmt::De
         for i in &ids {
             let mut e = format!("\"{}\":{{\"nslots\":{},\"gcount\":{}", i.0, eg.slots(*i).len(), self.group_count(*i));
             if self.with_data {
-                e.push_str(&format!(",\"data\":{}", format!("{:?}", eg.analysis_data(*i))));
+                e.push_str(&format!(",\"data\":{}", data_json(format!("{:?}", eg.analysis_data(*i)))));
                 let mut acc: Option<N::Data> = None;
                 for n in eg.enodes(*i) { let v = N::make(eg, &n); acc = Some(match acc { None => v, Some(a) => N::merge(a, v) }); }
-                e.push_str(&format!(",\"data_fix\":{}", match &acc { Some(a) => format!("{:?}", a), None => "null".to_string() }));
+                e.push_str(&format!(",\"data_fix\":{}", match &acc { Some(a) => data_json(format!("{:?}", a)), None => "null".to_string() }));
             }
             e.push('}'); cls.push(e);
         }
@@ -687,6 +701,8 @@ fn run_case(case: &[String]) -> String {
         ("Lb", "()") => run_history::<Lb, ()>(names, late, &ops, false, light),
         ("Lb", "MinSize") => run_history::<Lb, MinSize>(names, late, &ops, true, light),
         ("Lb", "Depth") => run_history::<Lb, Depth>(names, late, &ops, true, light),
+        ("La", "ConstProp") => run_history::<La, ConstProp>(names, late, &ops, true, light),
+        ("La", "()") => run_history::<La, ()>(names, late, &ops, false, light),
         ("Lm", "()") => run_history_opts::<Lm, ()>(names, late, &ops, false, light, dump, subst),
         _ => panic!("natdiff: unsupported instantiation {} {}", lang, analysis),
     };
